@@ -297,8 +297,20 @@ def verify_function(info: ContractInfo) -> FunctionResult:
             if kind in ("return", "fall"):
                 n_ret += 1
                 result = payload if (kind == "return" and payload is not None) else NONE
+                # instances of the element-wise facts (zip/map comprehensions, max/min) at the contract's ghost positions: consequences of
+                # universally quantified facts, spelled out because the goal need not contain a trigger term
+                for gname in list(getattr(info.cls, "forall", {})) + ["_argmax", "_argmin"]:
+                    gv = s2.env.get(gname)
+                    if isinstance(gv, S.VNum) and gv.kind == "int":
+                        for bv, fb in ctx.elementwise:
+                            s2.facts.append(z3.substitute(fb, (bv, gv.term)))
+                _had = s2.env.get("result", None)
+                if _had is None:
+                    s2.env["result"] = result  # hint_return clauses may instantiate lemmas at the returned value
                 for hn in sorted(info.clauses("hint_return")):
                     apply_hint(ex, info, "hint_return" + hn, s2)
+                if _had is None:
+                    del s2.env["result"]
                 for exc, cl in raises.items():
                     c = eval_clause(ex, info, cl, State(dict(env_in), [], s2.facts), {})
                     ctx.oblige(s2, z3.Not(c), f"raises-iff[{exc}]/normal-return", where)
